@@ -15,6 +15,10 @@ def corpus():
         mk(["D0", "S*", "e", "c1:" + e("a"), "t200", "t200"], "e", "clean close while idle, then a request", {1: ("c", [e("a")])}),
         mk(["D0", "c1:" + e("a"), "S*", "D0", "S*", "D5", "e", "c2:" + e("b"), "t200", "t200"], "cut", "stream cut inside the reply of the request in flight", {1: ("c", [e("a")]), 2: ("c", [e("b")])}),
         mk(["D0", "c1:" + e("a"), "c2:" + e("b"), "c3:" + e("c"), "r", "t200", "t200", "e"], "r", "read error with one request in flight and two queued", {1: ("c", [e("a")]), 2: ("c", [e("b")]), 3: ("c", [e("c")])}),
+        mk(["D0", "c1:" + e("a"), "c2:" + e("b"), "c3:" + e("c"), "r1", "t200", "t200", "e"], "r", "read error of kind UnexpectedEof with one request in flight and two queued", {1: ("c", [e("a")]), 2: ("c", [e("b")]), 3: ("c", [e("c")])}),
+        mk(["D0", "S*", "r1", "t200", "t200"], "r", "read error of kind UnexpectedEof while idle: a failure, not a clean close", {}),
+        mk(["D0", "c1:" + e("a"), "S*", "D0", "r1", "t200", "t200"], "r", "read error of kind UnexpectedEof, request written, no byte of its reply yet", {1: ("c", [e("a")])}),
+        mk(["D0", "S*", "r3", "t200", "t200"], "r", "read timed out while idle", {}),
         mk(["D0", "w", "c1:" + e("a"), "c2:" + e("b"), "t200", "e", "t200"], "w", "writes fail: noidle cannot be sent", {1: ("c", [e("a")]), 2: ("c", [e("b")])}),
         mk(["D0", "c1:" + e("a"), "S*", "D0", "S*", "D0", "w", "c2:" + e("b"), "t200", "e", "t200"], "w", "write fails inside the window", {1: ("c", [e("a")]), 2: ("c", [e("b")])}),
         mk(["D0", "c1:" + e("a"), "S*", "D0", "S*", "D0", "w", "t100", "e", "t200"], "w", "re-idle write fails", {1: ("c", [e("a")])}),
@@ -58,7 +62,8 @@ def gen(ctx):
                 info["requests"][rid] = (k_, specs)
             labels += ["e"]
         elif kind in ("r", "w", "h"):
-            labels += [kind]
+            # the kind of the transport's read error varies (reset, "unexpected eof", aborted, timed out, broken pipe ...): all are failures
+            labels += [kind + str(rng.randrange(8)) if kind == "r" else kind]
         else:
             gb = rng.choice(GARBAGE)
             kind = "invalid" if gb in INVALID else "garbage"
